@@ -224,7 +224,7 @@ pub fn run(tape: &[u8], cx: &Cx) -> Outcome {
             expect_good(&r2, "C17/operation-result", "str_replace_re_all(..)".into(), &mut o);
         }
         Err(msg) => {
-            if !msg.contains("Arithmetic overflow") {
+            if !crate::rx::is_overflow(&msg, prog.max_loop_bound()) {
                 o.fail("C17/regex-replace-panics", format!("regex replace panicked: {}", msg));
             }
         }
